@@ -32,7 +32,7 @@ def main():
             sid, chk, verdict = line.split()[0], line.split()[1].strip("[]"), line.split()[2]
             if chk == sid.split("-")[0]:
                 # keep the worst verdict recorded for the own check
-                if first.get(sid) != "MISSED":
+                if first.get(sid) not in ("MISSED", "BROKEN"):
                     first[sid] = verdict
     final = {}
     sp = VERIF / "tools" / "seeded_results.json"
